@@ -97,6 +97,8 @@ def run(repo, rep):
     rule_cpu_pass_move(repo, rep)
     rep.clause("C13-aj", "chain merges (pre -> mid -> post into mid) go ahead only if each tensor in between has exactly one consumer")
     rule_chain_merge_consumers(repo, rep)
+    rep.clause("C13-au", "members of an operator's (optional) options table are read with .get() or under a membership test in the reader")
+    rule_option_members_optional(repo, rep)
     rep.clause("C13-aq", "the scale check rejects a tensor if any of its scales is infinite (quantifier kept under negation)")
     rep.clause("C13-ar", "the reader records every buffer of the file (index alignment of tensors and buffers)")
     rep.clause("C13-as", "debug database pairs are read member by member as they are stored")
@@ -2432,3 +2434,51 @@ def rule_round8(repo, rep):
                               f"`{nm}` is read from position {a.value.slice.value}, the pair is stored as {layout}: an optimised-table id is recorded as a source id; print_performance (--verbose-performance) raises KeyError")
     if n < 1:
         raise AnalysisError("debug_database: no named read of an _optimisedUID member")
+
+
+_OPTION_SUBSCRIPT_EXEMPT = {
+    # option members whose absence makes the operator meaningless: a control-flow operator needs the indices of the subgraphs it calls
+    "cond_subgraph_index": "WHILE without its options table calls nothing (invalid input)", "body_subgraph_index": "as cond_subgraph_index",
+    "init_subgraph_index": "CALL_ONCE without its options table calls nothing (invalid input)",
+    "then_subgraph_index": "IF without its options table calls nothing (invalid input)", "else_subgraph_index": "as then_subgraph_index",
+}
+
+
+def rule_option_members_optional(repo, rep):
+    """(au) the options table of an operator is optional in the flatbuffer; OptionsSerializer.deserialize then fills none of the members and
+    lists them in attribute_read_error. In parse_operator a member of `op.attrs` is therefore read with .get() or under a membership test
+    (`"stride_w" in op.attrs` covers the members that come with it); a bare subscript raises KeyError for an operator without options
+    (DEPTHWISE_CONV_2D without DepthwiseConv2DOptions), which is not among the errors the reader converts into a Vela error."""
+    tr = repo.mod("tflite_reader")
+    f = tr.func("TFLiteSubgraph.parse_operator")
+    site = "ethosu/vela/tflite_reader.py:TFLiteSubgraph.parse_operator"
+    stored = set()
+    n = 0
+    for x in sorted((x for x in ast.walk(f) if isinstance(x, ast.Subscript) and str(norm(x.value)) == "op.attrs" and isinstance(x.slice, ast.Constant) and isinstance(x.slice.value, str)), key=lambda x: (x.lineno, x.col_offset)):
+        k = x.slice.value
+        if isinstance(x.ctx, ast.Store):
+            stored.add(k)
+            continue
+        if k in stored or k == "attribute_read_error":
+            continue
+        n += 1
+        guarded = False
+        cur = tr.parents.get(x)
+        child = x
+        while cur is not None and cur is not f:
+            tests = []
+            if isinstance(cur, ast.If) and any(child is y for st in cur.body for y in ast.walk(st)):
+                tests.append(cur.test)
+            if isinstance(cur, ast.BoolOp) and isinstance(cur.op, ast.And) and child in cur.values:
+                tests.extend(cur.values[: cur.values.index(child)])
+            for t in tests:
+                if " in op.attrs" in str(norm(t)) and "not in" not in str(norm(t)):
+                    guarded = True
+            child, cur = cur, tr.parents.get(cur)
+        if k in _OPTION_SUBSCRIPT_EXEMPT and not guarded:
+            rep.ok("C13-au", site, f"op.attrs['{k}']", "reviewed: " + _OPTION_SUBSCRIPT_EXEMPT[k])
+            continue
+        rep.check(guarded, "C13-au", site, f"`op.attrs['{k}']` is read under a membership test (or with .get)",
+                  f"bare subscript: an operator without an options table has no '{k}': KeyError out of the reader (DEPTHWISE_CONV_2D without options)")
+    if n < 5:
+        raise AnalysisError(f"parse_operator: {n} option member reads")
